@@ -67,9 +67,6 @@ Fixpoint stores (bs : blobs) (ms : list msg) : blobs * list (blobs * stored) :=
 Definition results (ms : list msg) : list (option msg) :=
   let '(bsf, sts) := stores [] ms in map (fun x => fetch bsf (snd x)) sts.
 
-Definition classes (ms : list msg) : list (option finding) :=
-  let '(_, sts) := stores [] ms in map (fun x => classify hid (fst (fst x)) (snd x)) (combine sts ms).
-
 Definition spec_ok (m : msg) (o : option msg) : bool :=
   match o with Some m' => msg_equiv m m' | None => false end.
 
